@@ -22,6 +22,9 @@ class PageContext(BaseModel):
     is_first_page: bool
     is_last_page: bool
 
+    # Index (in the whole table) of the first data row shown on this page
+    row_start: int = 0
+
     # Layout
     col_widths: list[float]
 
